@@ -110,6 +110,80 @@ def _flatten(obj, out):
         out.append(_scalar(obj))
 
 
+class BoolArray:
+    """Result of an element-wise comparison: (symbolic) booleans with a shape.  all() / any() / bool() decide them."""
+
+    def __init__(self, vals, shape):
+        self.vals = list(vals)
+        self.shape = tuple(shape)
+
+    @property
+    def size(self):
+        return len(self.vals)
+
+    ndim = property(lambda self: len(self.shape))
+
+    def __len__(self):
+        if not self.shape:
+            raise TypeError("len() of unsized object")
+        return self.shape[0]
+
+    def values(self):
+        return list(self.vals)
+
+    def all(self, axis=None):
+        for v in self.vals:
+            if not bool(v):
+                return False
+        return True
+
+    def any(self, axis=None):
+        for v in self.vals:
+            if bool(v):
+                return True
+        return False
+
+    def sum(self, axis=None):
+        return _builtins.sum(1 for v in self.vals if bool(v))
+
+    def __bool__(self):
+        if len(self.vals) != 1:
+            raise ValueError("The truth value of an array with more than one element is ambiguous. Use a.any() or a.all()")
+        return bool(self.vals[0])
+
+    def __invert__(self):
+        return BoolArray([(~v if isinstance(v, SymBool) else (not v)) for v in self.vals], self.shape)
+
+    def _zip(self, o, f):
+        if isinstance(o, BoolArray):
+            if o.shape != self.shape:
+                raise Unsupported("broadcasting of boolean arrays")
+            return BoolArray([f(a, b) for a, b in zip(self.vals, o.vals)], self.shape)
+        return BoolArray([f(a, o) for a in self.vals], self.shape)
+
+    def __and__(self, o):
+        return self._zip(o, lambda a, b: a & b if isinstance(a, SymBool) or isinstance(b, SymBool) else (a and b))
+
+    def __or__(self, o):
+        return self._zip(o, lambda a, b: a | b if isinstance(a, SymBool) or isinstance(b, SymBool) else (a or b))
+
+    __rand__ = __and__
+    __ror__ = __or__
+
+    def __iter__(self):
+        if len(self.shape) != 1:
+            raise Unsupported("iteration over a multi-dimensional boolean array")
+        return iter(self.vals)
+
+    def __getitem__(self, i):
+        if isinstance(i, int) and len(self.shape) == 1:
+            return self.vals[i]
+        raise Unsupported("indexing a boolean array")
+
+    def __repr__(self):
+        return "BoolArray(%r)" % (self.shape,)
+
+
 class SymBytes:
     """Surrogate of ndarray.tobytes() for symbolic contents: 8 positions per element, hashable, comparable, sliceable on element
     boundaries, concatenable."""
@@ -127,7 +201,7 @@ class SymBytes:
         start, stop, _ = item.indices(len(self))
         if start % 8 or stop % 8:
             raise Unsupported("slice of the bytes of a symbolic array that is not aligned to elements")
-        return SymBytes(self.keys[start // 8: max(stop, start) // 8])
+        return SymBytes(self.keys[start // 8: _builtins.max(stop, start) // 8])
 
     def __add__(self, other):
         if isinstance(other, SymBytes):
@@ -477,12 +551,33 @@ class ndarray:
     def __itruediv__(self, o):
         return self._inplace(o, lambda a, b: a / b)
 
-    # ---- comparisons: element-wise arrays of SymBool are not needed by the repo
+    # ---- comparisons: element-wise, giving a BoolArray of (symbolic) booleans; reducing it with all()/any() decides them
+    def _compare(self, o, f):
+        if isinstance(o, (list, tuple)):
+            o = array(o)
+        if isinstance(o, ndarray):
+            shape, av, bv = _broadcast(self, o) if self.shape != o.shape else (self.shape, self.values(), o.values())
+            return BoolArray([f(x, y) for x, y in zip(av, bv)], tuple(shape))
+        y = _scalar(o)
+        return BoolArray([f(x, y) for x in self.values()], self.shape)
+
     def __eq__(self, o):
-        raise Unsupported("element-wise array comparison")
+        return self._compare(o, lambda x, y: x == y)
 
     def __ne__(self, o):
-        raise Unsupported("element-wise array comparison")
+        return self._compare(o, lambda x, y: x != y)
+
+    def __lt__(self, o):
+        return self._compare(o, lambda x, y: x < y)
+
+    def __le__(self, o):
+        return self._compare(o, lambda x, y: x <= y)
+
+    def __gt__(self, o):
+        return self._compare(o, lambda x, y: x > y)
+
+    def __ge__(self, o):
+        return self._compare(o, lambda x, y: x >= y)
 
     __hash__ = object.__hash__
 
@@ -536,8 +631,8 @@ def _broadcast(a, b):
     if a.size == 1 and a.ndim <= b.ndim:
         return b.shape, a.values() * b.size, b.values()
     # trailing-dimension broadcasting for 2-D with 1-D / column vectors
-    sa = (1,) * (max(a.ndim, b.ndim) - a.ndim) + a.shape
-    sb = (1,) * (max(a.ndim, b.ndim) - b.ndim) + b.shape
+    sa = (1,) * (_builtins.max(a.ndim, b.ndim) - a.ndim) + a.shape
+    sb = (1,) * (_builtins.max(a.ndim, b.ndim) - b.ndim) + b.shape
     out = []
     for x, y in zip(sa, sb):
         if x == y or y == 1:
@@ -685,7 +780,7 @@ def diag(v, k=0):
         n = v.shape[0]
         vals = v.values()
         return ndarray._fresh([vals[i] if i == j else Sym(0) for i in range(n) for j in range(n)], (n, n))
-    n = min(v.shape)
+    n = _builtins.min(v.shape)
     return ndarray._fresh([v[i, i] for i in range(n)], (n,))
 
 
@@ -762,8 +857,8 @@ def fill_diagonal(a, val, wrap=False):
     if not isinstance(a, ndarray) or a.ndim != 2:
         raise Unsupported("fill_diagonal of a non-2-d array")
     n, m = a.shape
-    vals = _broadcast_values(val, (min(n, m),)) if isinstance(val, (ndarray, list, tuple)) else [_scalar(val)] * min(n, m)
-    for i in range(min(n, m)):
+    vals = _broadcast_values(val, (_builtins.min(n, m),)) if isinstance(val, (ndarray, list, tuple)) else [_scalar(val)] * _builtins.min(n, m)
+    for i in range(_builtins.min(n, m)):
         a._st.set(a._ix[i * m + i], vals[i])
 
 
@@ -866,7 +961,7 @@ def cross(a, b):
 
 def trace(a):
     a = asarray(a)
-    return _sum_terms(a[i, i] for i in range(min(a.shape)))
+    return _sum_terms(a[i, i] for i in range(_builtins.min(a.shape)))
 
 
 def sum_(a, axis=None):
@@ -983,6 +1078,8 @@ def diagonal(a, offset=0):
 def all(a, axis=None):      # noqa: A001
     if isinstance(a, (bool, SymBool)):
         return bool(a)
+    if isinstance(a, BoolArray):
+        return a.all()
     for x in asarray(a).values():
         if not bool(x != 0):
             return False
@@ -992,6 +1089,8 @@ def all(a, axis=None):      # noqa: A001
 def any(a, axis=None):      # noqa: A001
     if isinstance(a, (bool, SymBool)):
         return bool(a)
+    if isinstance(a, BoolArray):
+        return a.any()
     for x in asarray(a).values():
         if bool(x != 0):
             return True
@@ -1091,6 +1190,23 @@ def isfinite(x):
     return _unary(lambda a: True, x)
 
 
+def shares_memory(a, b, max_work=None):
+    """Exact: the two arrays have an element in common."""
+    if not isinstance(a, ndarray) or not isinstance(b, ndarray):
+        return False
+    return a._st is b._st and bool(set(a._ix) & set(b._ix))
+
+
+def may_share_memory(a, b, max_work=None):
+    """numpy's bounds check: same buffer and overlapping [lowest, highest] element ranges (a strided view of one column of
+    an array 'may share' with a view of another column)."""
+    if not isinstance(a, ndarray) or not isinstance(b, ndarray):
+        return False
+    if a._st is not b._st or not a._ix or not b._ix:
+        return False
+    return _builtins.min(a._ix) <= _builtins.max(b._ix) and _builtins.min(b._ix) <= _builtins.max(a._ix)
+
+
 def isnan(x):
     return _unary(lambda a: False, x)
 
@@ -1103,6 +1219,30 @@ def clip(x, lo, hi):
             return _scalar(hi)
         return a
     return _unary(f, x)
+
+
+def amax(a, axis=None):
+    if axis is not None:
+        raise Unsupported("np.max with an axis")
+    return asarray(a).max()
+
+
+def amin(a, axis=None):
+    if axis is not None:
+        raise Unsupported("np.min with an axis")
+    return asarray(a).min()
+
+
+max = amax          # noqa: A001  (numpy exports np.max / np.min)
+min = amin          # noqa: A001
+
+
+def logical_not(x):
+    if isinstance(x, BoolArray):
+        return ~x
+    if isinstance(x, SymBool):
+        return ~x
+    return not x
 
 
 def maximum(a, b):
@@ -1120,4 +1260,6 @@ def sign(x):
 def where(c, a, b):
     if isinstance(c, (bool, SymBool)):
         return a if c else b
+    if isinstance(c, BoolArray) and isinstance(a, ndarray) and isinstance(b, ndarray) and a.shape == b.shape == c.shape:
+        return ndarray._fresh([x if bool(t) else y for t, x, y in zip(c.vals, a.values(), b.values())], a.shape)
     raise Unsupported("np.where on arrays")
